@@ -46,6 +46,7 @@ def edge_types(dt, tier, reduced=False):
         ("duration", None, 2.0),
         ("number", None, 1e4),  # more people than exist
         ("probability", None, 0.0),
+        ("rate", None, {"t": [START, START + 0.5, START + 1], "v": [0.6, 0.6, 0.0]}),  # positive, then exactly zero from START+1 on
     ]
     if tier == "thorough":
         q += [
@@ -80,7 +81,9 @@ def add_edge(spec, s, d, et, name=None):
     return name
 
 
-def add_source(spec, dest, n=30.0):
+def add_source(spec, dest, n=None):
+    if n is None:
+        n = {"t": [START, START + 1, START + 1.5], "v": [30.0, 30.0, 0.0]}  # births stop (exactly zero) from START+1.5 on
     spec["comps"].append(dict(name="src", kind="src"))
     spec["pars"].append(dict(name="br", fmt="number", val=n))
     spec["links"].append(["src", dest, "br"])
@@ -260,7 +263,7 @@ def durations(dt, tier):
 
 def timed(tier):
     """a (timed, D) --flush--> b ; optional extra ordinary outflow a->c ; inflow c->a, b->a ; variants with a duration group"""
-    for struct in ("single", "group", "group_junction", "group_junction2", "group_resjunction", "two_pops"):
+    for struct in ("single", "group", "group_junction", "group_junction2", "group_resjunction", "two_pops", "two_groups_longer", "two_groups_shorter", "two_groups_equal"):
         for dt in DTS[tier][:3] if tier == "quick" else [1.0, 0.25, 1 / 12, 0.1, 0.3, 1 / 52]:
             for lab, D in durations(dt, tier):
                 for extra in (None, 0.3, "over"):
@@ -296,6 +299,12 @@ def timed(tier):
                                 spec["links"].append(["jt", "a4", "s2"])
                             else:
                                 spec["links"].append(["jt", "a4", ">"])
+                        elif struct.startswith("two_groups"):
+                            # a second duration group (its own timed parameter): a direct move a -> a5 between the groups restarts the elapsed time
+                            D2 = {"two_groups_longer": 2 * D + dt, "two_groups_shorter": max(D / 2, 0.4 * dt), "two_groups_equal": D}[struct]
+                            spec["comps"].append(dict(name="a5", kind="ord", init=0.0 if ainit == 0 else 12.0))
+                            spec["pars"] += [dict(name="dur2", fmt="duration", val=D2, timed=True), dict(name="mv", fmt="probability", val=0.4)]
+                            spec["links"] += [["a", "b", "dur"], ["a5", "b", "dur2"], ["a", "a5", "mv"]]
                         elif struct == "two_pops":
                             spec["pops"] = ["pa", "pb"]
                             spec["pars"][0]["val"] = {"pa": D, "pb": 2 * D if D >= dt else 3 * dt}
@@ -406,7 +415,18 @@ def combined(tier):
                 yield combined_spec(dt, v, dur, tj, pa, d, br, prog=prog)
 
 
-def all_sim(tier, which=("flows", "junctions", "timed", "pops", "combined")):
-    g = dict(flows=flows, junctions=junctions, timed=timed, pops=pops, combined=combined)
+def regress(tier):
+    """inputs found by a thorough-tier run that once failed on the real code (kept in the quick tier so that the defect cannot come back unnoticed)"""
+    import glob
+    import json
+    import os
+
+    for f in sorted(glob.glob(os.path.join(os.path.dirname(os.path.abspath(__file__)), "regress", "*.json"))):
+        with open(f) as fh:
+            yield from json.load(fh)
+
+
+def all_sim(tier, which=("regress", "flows", "junctions", "timed", "pops", "combined")):
+    g = dict(regress=regress, flows=flows, junctions=junctions, timed=timed, pops=pops, combined=combined)
     for w in which:
         yield from g[w](tier)
